@@ -156,7 +156,7 @@ theorem elemScript_idx (ftag ttag : Str) (fattr tattr : Tree) (ftext ttext : Opt
 theorem xaccounts_kidsScript (o : Opts) (orc : Oracle) (fp tp : List Nat) (kf kt : Nat) (fcs tcs : List XTree)
     (ih : ∀ i j (hi : i < fcs.length) (hj : j < tcs.length),
       XAccounts (.elem fcs[i]) (.elem tcs[j]) (xmlEdits o orc (fp ++ [kf, i]) (tp ++ [kt, j]) fcs[i] tcs[j])) :
-    XAccounts (.kids fcs) (.kids tcs) (kidsScript fcs tcs (kidsTbl o orc fp tp kf kt fcs tcs)) := by
+    XAccounts (.kids fcs) (.kids tcs) (kidsScript o fcs tcs (kidsTbl o orc fp tp kf kt fcs tcs)) := by
   have hT := kidsTbl_top o orc fp tp kf kt fcs tcs
   have hlink : ∀ i j, i < fcs.length → j < tcs.length →
       ∃ i' j' x y, ((((kidsTbl o orc fp tp kf kt fcs tcs).getD i []).getD j (xMatch 0)).relabel (.at i) (.at j)).fi = .at i' ∧
@@ -228,10 +228,10 @@ theorem xaccounts_xmlEdits (o : Opts) (orc : Oracle) (f : XTree) : ∀ (fp tp : 
         (fun i j hi hj => ih _ (List.getElem_mem hi) _ _ _ (hf.2 _ (List.getElem_mem hi)) (ht.2 _ (List.getElem_mem hj)))
       have hidx := elemScript_idx ftag ttag fattr tattr ftext ttext fcs tcs
         (edits o orc (fp ++ [1]) (tp ++ [1]) fattr tattr)
-        (kidsScript fcs tcs (kidsTbl o orc fp tp (kidsIx ftext) (kidsIx ttext) fcs tcs))
+        (kidsScript o fcs tcs (kidsTbl o orc fp tp (kidsIx ftext) (kidsIx ttext) fcs tcs))
         (edits_kind_top ..) (kidsScript_top ..)
-      have hktop := kidsScript_top fcs tcs (kidsTbl o orc fp tp (kidsIx ftext) (kidsIx ttext) fcs tcs)
-      generalize kidsScript fcs tcs (kidsTbl o orc fp tp (kidsIx ftext) (kidsIx ttext) fcs tcs) = kidsE at hkids hidx hktop
+      have hktop := kidsScript_top o fcs tcs (kidsTbl o orc fp tp (kidsIx ftext) (kidsIx ttext) fcs tcs)
+      generalize kidsScript o fcs tcs (kidsTbl o orc fp tp (kidsIx ftext) (kidsIx ttext) fcs tcs) = kidsE at hkids hidx hktop
       have hattr := accounts_edits Tree.eq_symm o orc (fp ++ [1]) (tp ++ [1]) fattr tattr hf.1 ht.1
       have hatop := edits_kind_top o orc (fp ++ [1]) (tp ++ [1]) fattr tattr
       generalize edits o orc (fp ++ [1]) (tp ++ [1]) fattr tattr = attrE at hattr hidx hatop
